@@ -153,6 +153,31 @@ def gen_history(rng, strings, idx):
                          meta=dict(src=src, expected_out="".join(o + "\n" for o in out), store={k: v for k, v in store.items()}, strings=meta_strings, in_func=in_func))
 
 
+def directed_histories():
+    """one file under two spellings of its path, literal paths and literal contents, the later write through the OTHER spelling (round 11:
+    C17-D, a transpile-time table "path spelling -> content written last" answering read(<same spelling>)); and a loop whose condition reads
+    the file its body rewrites (the condition is evaluated for every round, from the file)"""
+    out = []
+    pairs = [("f.txt", "./f.txt", "f.txt"), ("./f.txt", "f.txt", "f.txt"), ("h.txt", "dir/../h.txt", "h.txt"), ("dir/g.txt", "./dir/g.txt", "dir/g.txt"),
+             ("dir/g.txt", "dir/../dir/g.txt", "dir/g.txt")]
+    k = 0
+    for p1, p2, canon in pairs:
+        for in_func in (False, True):
+            body = ['write("%s", "first")' % p1, 'print("1: " + read("%s"))' % p1, 'write("%s", "second")' % p2, 'print("2: " + read("%s"))' % p1,
+                    'print("3: " + read("%s"))' % p2, 'write("%s", "more", true)' % p1, 'print("4: " + read("%s"))' % p2]
+            exp = ["1: first", "2: second", "3: second", "4: second", "more"]
+            lines = (["func ops() {"] + ["\t" + l for l in body] + ["}", "ops()"]) if in_func else body
+            src = "\n".join(lines) + "\n"
+            out.append(pipeline.Case("dh%d" % k, {"main.tsh": src.encode()},
+                                     meta=dict(src=src, expected_out="".join(o + "\n" for o in exp), store={canon: b"second\nmore\n"}, strings=[], in_func=in_func)))
+            k += 1
+    loop = ('n := 0\nwrite("state.txt", "run")\nfor read("state.txt") == "run" && n < 5 {\n\tn++\n\tif n == 2 {\n\t\twrite("state.txt", "stop")\n\t}\n}\nprint("rounds", n)\n'
+            'm := 0\nwrite("./state.txt", "go")\nfor m < 4 && read("state.txt") == "go" {\n\tm++\n\twrite("state.txt", "halt")\n}\nprint("rounds", m)\n')
+    out.append(pipeline.Case("dh%d" % k, {"main.tsh": loop.encode()},
+                             meta=dict(src=loop, expected_out="rounds 2\nrounds 1\n", store={"state.txt": b"halt\n"}, strings=[], in_func=False)))
+    return out
+
+
 def _exec(arg):
     return semcheck.run_bash(arg, files={"dir/.keep": b""}, keep=True)
 
@@ -165,7 +190,7 @@ def run(res, b, tier, seed):
         res.violation("build", dict(harness=b.harness_error, model=b.model_error), no_input=True)
         return
     strings = contents(rng, tier == "quick")
-    cases = [gen_history(rng, strings, i) for i in range(400 if tier == "quick" else 6000)]
+    cases = directed_histories() + [gen_history(rng, strings, i) for i in range(400 if tier == "quick" else 6000)]
     pipeline.run_pipe(b, cases, "asw")
     pipeline.model_full(b, cases)
     pipeline.model_batch(b, cases)
